@@ -392,9 +392,9 @@ def rule_input_closure(ctx, px):
     feeds = []
     reaches_deps = False
     for c in ast.walk(li.node):
+        if isinstance(c, ast.Attribute) and c.attr in ("get_all_types", "get_all_datatypes"):
+            feeds.append(c.attr)      # called in place or taken as a method value (`provider = ns.get_all_types`)
         if isinstance(c, ast.Call) and isinstance(c.func, ast.Attribute):
-            if c.func.attr in ("get_all_types", "get_all_datatypes"):
-                feeds.append(c.func.attr)
             if c.func.attr in ("transitive", "direct", "get_dependency_builder") or "depend" in c.func.attr.lower():
                 reaches_deps = True
         if isinstance(c, ast.Name) and "depend" in c.id.lower():
